@@ -123,6 +123,13 @@ func sinkFor(byteSink bool) (io.Writer, *mon.Sink) {
 func runLZWriter(k lzCase, data []byte) (sink *mon.Sink, dev string, pn *mon.Panic) {
 	var w io.Writer
 	w, sink = sinkFor(k.ByteSink)
+	finish := func() {}
+	if !k.ByteSink {
+		// what the writer is connected to: the recording sink, a *bufio.Writer in front of it
+		// (an io.ByteWriter; flushed by the caller after Close), a *bytes.Buffer
+		w, finish = sinkKind(k.Seed>>7, sink)
+	}
+	defer finish()
 	cfg := k.config(int64(len(data)))
 	pn = mon.Guard(func() {
 		// configuration lifecycle (a function of the case seed): fresh literal; verified with
@@ -174,7 +181,7 @@ func runLZWriter(k lzCase, data []byte) (sink *mon.Sink, dev string, pn *mon.Pan
 		}
 		pos := 0
 		for i, l := range gen.Partition(prng.New(k.Seed, 2), k.Part, len(data), []int{273, 4096, k.DictCap, k.DictCap + k.BufSize, 65536}) {
-			n, err := lw.Write(data[pos : pos+l])
+			n, err := callerWrite(lw, data[pos:pos+l], k.Seed>>3+uint64(i))
 			if n != l || err != nil {
 				dev = fmt.Sprintf("Write #%d of %d bytes at offset %d returned (%d, %v)", i, l, pos, n, err)
 				return
